@@ -119,6 +119,34 @@ theorem tie_Variant_assign (st : St) (tid d s : Nat) :
       simp [pre, boxAssign, h, hs, rel, shareAssign, noClr, sem, exec, isGuard, Variant_assign, boxCtx, evalC, evalP, isBlkDen,
         Handle.isBlk, setP, emit, inlOf]
 
+/-- `Variant::swap` calls only translated members: the objects of the calls and their interpretation -/
+def slotOf (tid a b : Nat) : Obj → Nat
+  | .this => a
+  | .arg => b
+  | .tmp => tmpU tid
+
+def semCall (st : St) (tid a b : Nat) : Call → List Act
+  | .copyCtor x y => sem (boxCtx st tid (slotOf tid a b x) (slotOf tid a b y)) Variant_copy
+  | .assign x y => sem (boxCtx st tid (slotOf tid a b x) (slotOf tid a b y)) Variant_assign
+  | .dtor x => sem (boxCtx st tid (slotOf tid a b x) (slotOf tid a b x)) Variant_dtor
+
+/-- `V[a].swap(V[b])`: the translated body is a sequence of calls (`Variant tmp = other; other = *this; *this = tmp;` and the
+    destructor of the temporary); the model's `pre` is the first call (the copy constructor on the scratch slot), the model's `post`
+    the remaining calls, each the interpretation of the translated member -/
+theorem tie_Variant_swap (st s1 : St) (tid a b : Nat) (ha : a ≠ tmpU tid) :
+    ∃ c0 rest, Variant_swap = c0 :: rest ∧ pre st tid (.vSwap a b) = semCall st tid a b c0
+      ∧ noClr (post s1 tid (.vSwap a b)) = (rest.map (semCall s1 tid a b)).flatten := by
+  refine ⟨_, _, rfl, ?_, ?_⟩
+  · cases hs : st.slots b <;>
+      simp [pre, hs, semCall, slotOf, sem, exec, isGuard, Variant_copy, boxCtx, evalC, evalP, isBlkDen, Handle.isBlk, setP, emit, inlOf]
+  · have e1 := tie_Variant_assign s1 tid b a
+    simp only [pre] at e1
+    have ha' : ¬ tmpU tid = a := fun e => ha e.symm
+    cases ht : s1.slots (tmpU tid) <;>
+      simp only [post, ht, noClr_append, e1, List.map, List.flatten_cons, List.flatten_nil, semCall, slotOf, List.append_nil] <;>
+      simp [noClr, rel, shareAssign, sem, exec, isGuard, Variant_assign, Variant_dtor, boxCtx, evalC, evalP, isBlkDen, Handle.isBlk,
+        setP, emit, inlOf, ht, ha, ha']
+
 /-! ### Xml::Variant (its handles are never inline) -/
 
 theorem tie_XmlVariant_copy (st : St) (tid d s : Nat) (h : d ≠ s) (hi : ∀ tag val, st.slots s ≠ .inl tag val) :
